@@ -308,7 +308,7 @@ impl IoLoop {
                 PollOpt::edge(),
             )
             .context(RegisterWithPollHandleSnafu)?;
-        let (tune_ok, server_properties) =
+        let (tune_ok, server_properties, early_frames) =
             self.run_amqp_handshake(&mut stream, options, have_written_to_socket)?;
         let channel_max = tune_ok.channel_max;
         match handshake_done_tx.send((tune_ok.frame_max as usize, server_properties)) {
@@ -316,7 +316,7 @@ impl IoLoop {
             Err(_) => return Ok(()),
         }
         self.inner.chan_slots.set_channel_max(channel_max);
-        self.run_connection(&mut stream, ch0_slot)
+        self.run_connection(&mut stream, ch0_slot, early_frames)
     }
 
     fn run_amqp_handshake<Auth: Sasl, S: IoStream>(
@@ -324,7 +324,7 @@ impl IoLoop {
         stream: &mut S,
         options: ConnectionOptions<Auth>,
         have_written_to_socket: bool,
-    ) -> Result<(TuneOk, FieldTable)> {
+    ) -> Result<(TuneOk, FieldTable, Vec<AMQPFrame>)> {
         let mut state = HandshakeState::Start(options);
         let result = self.run_io_loop(
             stream,
@@ -353,7 +353,9 @@ impl IoLoop {
             | HandshakeState::Secure(_, _)
             | HandshakeState::Tune(_, _)
             | HandshakeState::Open(_, _) => unreachable!(),
-            HandshakeState::Done(tune_ok, server_properties) => Ok((tune_ok, server_properties)),
+            HandshakeState::Done(tune_ok, server_properties, early_frames) => {
+                Ok((tune_ok, server_properties, early_frames))
+            }
             HandshakeState::ServerClosing(close) => ServerClosedConnectionSnafu {
                 code: close.reply_code,
                 message: close.reply_text,
@@ -393,7 +395,7 @@ impl IoLoop {
             | HandshakeState::Secure(_, _)
             | HandshakeState::Tune(_, _)
             | HandshakeState::Open(_, _) => false,
-            HandshakeState::Done(_, _) => true,
+            HandshakeState::Done(_, _, _) => true,
             HandshakeState::ServerClosing(_) => {
                 // server initiated a close (e.g., bad vhost). don't report that we're
                 // done until all our writes have gone out
@@ -410,8 +412,13 @@ impl IoLoop {
         &mut self,
         stream: &mut S,
         ch0_slot: Channel0Slot,
+        early_frames: Vec<AMQPFrame>,
     ) -> Result<()> {
         let mut state = ConnectionState::Steady(ch0_slot);
+        // Frames that arrived in the same read as open-ok have not been acted on yet.
+        for frame in early_frames {
+            state.process(&mut self.inner, frame)?;
+        }
         self.run_io_loop(
             stream,
             &mut state,
